@@ -32,4 +32,10 @@ def singleAttempt (said : List Said) (order : List Nat) (fromBackend : Option Go
   | none => true
   | some c => said.any (fun b => explainedBy b c && order.getLast? == some b.name)
 
+/-- Interim (1xx) responses that reached the client are bytes of an attempt too: each of them comes from the attempt whose
+    answer the client holds — the last one dispatched — never from an attempt that was abandoned (`interims`: which
+    attempt each interim response came from, in arrival order). -/
+def interimsFromLastAttempt (order : List Nat) (interims : List Nat) : Bool :=
+  interims.all (fun b => order.getLast? == some b)
+
 end Olla.Spec.C02
